@@ -42,11 +42,17 @@ def check(run):
             a += c
         scns += a + b
         run.log("%s: %d exhaustive local histories, %d simulated mixed histories" % (mp, len(a), len(b)))
+    # the two inputs of a node at the same time: older updates by gossip while the full state holding the newer ones is merged
+    st = crdtlib.storms(k=120 if not thorough else 300, rounds=3 if not thorough else 12)
+    scns += st
+    run.log("%d concurrent-input rounds" % len(st))
     tpath = crdtlib.execute(run, scns, "c08")
     v = vlib.Verdict(run)
     nev, validated, rejected, tstates = crdtlib.validate(run, "C08", scns, tpath, v)
     rc = v.finish()
     vlib.write_evidence(run, {
+        "concurrent_inputs": {"rounds": len(st), "rule": "per round 120-300 keys: the gossip messages of the older updates are delivered one by one (NotifyMsg) "
+                              "while the full state holding the newer ones is merged (MergeRemoteState) on another goroutine; CrdtTrace.tla: the listing is the newest entry per key"},
         "traces_validated_against_impl": validated,
         "evaluations": nev,
         "distinct_nontrivial": len(scns),
